@@ -10,8 +10,8 @@ from ..pkt import SYN, ACK, PSH, FIN, RST, URG, ECE, CWR, NS
 PROP = "C07"
 RULE = ("random scripts of 4-40 segments over 1-6 interleaved flows (tuples differing in exactly one field, swapped "
         "endpoints, IPv4 and IPv6), acknowledgement numbers drawn from {cookie+1, cookie, cookie+2, 0, 1, random}, sequence "
-        "numbers next to 2^32 so that seq+len wraps, payload lengths 0..1460 (random bytes and real application "
-        "requests), extra flags (URG/ECE/CWR/NS/FIN/SYN) next to PSH|ACK, bare ACK / RST / FIN|ACK segments, data before any "
+        "numbers next to 2^32 so that seq+len wraps, payload lengths 0..1460 (random bytes, valid application requests of every protocol, requests with one grammar fault, "
+        "parser-hostile strings, in any order on one connection), extra flags (URG/ECE/CWR/NS/FIN/SYN) next to PSH|ACK, bare ACK / RST / FIN|ACK segments, data before any "
         "SYN, after FIN|ACK, after a table reset, control segments carrying the flow's own cookie+1, and flows whose cookie is exactly 0 / 0xFFFFFFFF (ack 0 must be accepted resp. rejected); every reply (or silence) and the table size are compared with the "
         "connection model. Non-trivial = script with at least one accepted and one rejected data segment; distinct = "
         "distinct abstract scripts (per step: flow, flags, ack class, length class, outcome).")
@@ -145,6 +145,10 @@ def script(ctx, cfg, model, cookies):
         n = rng.choice([0, 1, 1, 2, 7, 100, 536, 1460, rng.randrange(0, 1461)])
         if rng.random() < 0.15:
             pl = rng.choice([b"GET / HTTP/1.1\r\n\r\n", b"SSH-2.0-x\r\n", b"Gh0st\0\0\0\0", b"\x00\x01\x00\x00\x21\x12\xa4\x42" + bytes(12)])
+        elif rng.random() < 0.3:
+            # valid requests of every protocol, requests with one grammar fault, parser-hostile strings: a connection may
+            # carry any of them in any order (a failed HTTP request followed by an RPC record, ...)
+            pl = gen.tcp_payload(rng)[:1460]
         else:
             pl = bytes(rng.getrandbits(8) for _ in range(n)) if n < 64 else bytes([rng.getrandbits(8)]) * n
         extra = rng.choice([0, 0, 0, 0, URG, ECE, CWR, NS, URG | ECE | CWR | NS, FIN, SYN])
@@ -185,6 +189,7 @@ def script(ctx, cfg, model, cookies):
         if r.kind != "P" and r.table != want_t and None not in model.validated.values():
             ctx.violation("table_size", "connection table holds %d entries, model says %d" % (r.table, want_t), observed=r.table, expected=want_t)
         s["seq"] = (s["seq"] + len(pl)) & 0xFFFFFFFF
+        n = len(pl)
         word.append((i, "d%03x" % extra, kind, 0 if n == 0 else (1 if n < 64 else 2), r.kind, should_accept))
     return word, acc, rej
 
